@@ -17,7 +17,7 @@ def ipcAlive : IPc → Bool
 
 /-- ... and still in the client list -/
 def ipcLinked : IPc → Bool
-  | .createO | .sel | .w1 | .f1 | .f2 | .e1 | .k _ | .x0 | .x0s | .x1 | .x2 | .x3 | .x4 => true
+  | .createO | .sel | .w1 | .f1 | .f2 | .e1 | .k _ | .x0 | .x0s | .x1 | .x2 | .x3 | .x4 | .x4s | .x4u => true
   | .g st => gPre st
   | _ => false
 
@@ -28,7 +28,7 @@ def ipcHasOut : IPc → Bool
 
 /-- after the join, up to the unlink -/
 def ipcPre : IPc → Bool
-  | .x4 => true
+  | .x4 | .x4s | .x4u => true
   | .g st => gPre st
   | _ => false
 
